@@ -819,3 +819,4 @@ def run(ck):
 #  c27-timeslice-check-before-recording-bucket                    -> bucket-processed-twice-without-kill          CAUGHT
 #  c27-prefix-marked-complete-before-processing                   -> bucket-skipped-in-cycle                      CAUGHT
 #  c27-last-prefix-index-not-reset-at-cycle-end                   -> bucket-skipped-in-cycle                      CAUGHT
+#  seeded/C27-1 (bucket_cache not overwritten for missing prefix dirs)     -> bucket-skipped-in-cycle (bucket added between two cycles)    CAUGHT
